@@ -237,12 +237,13 @@ Section Run.
   (* the specification's verdict for every field of object r *)
   Definition verdicts (C : chain) (h : heap) (r : nat) : list Z :=
     map (fun f => match getattr h r (f_name f) with Some v => verdict_code E h (f_ann f) v | None => 97 end) (dc_fields C).
-  (* ... of the object the property text describes for this request (Spec.DataclassSpec.spec_value): independent
+  (* ... of the object the property text describes for this request (Spec.DataclassSpec.spec_final_value: the keyword /
+     original / default value, overwritten by what the user-written __post_init__ hooks assign): independent
      of the decorator program, so that the oracle stays what it is when the program is a mutated one *)
   Definition cand_verdicts (C : chain) (p : path) (st : state) : list Z :=
     let '(orig, kw) := match p with ByCtor kw => (None, kw) | ByCopy r0 kw | ByDeep r0 kw => (Some r0, kw) end in
-    if request_ok (dc_fields C) kw then
-      map (fun f => match spec_value (s_heap st) orig kw f with
+    if path_request_ok (dc_fields C) p (s_heap st) then
+      map (fun f => match spec_final_value C (s_heap st) orig kw f with
                     | Some (h', v) => verdict_code E h' (f_ann f) v
                     | None => 97
                     end) (dc_fields C)
